@@ -187,6 +187,27 @@ def lexically_inside(node, pred, stop=None) -> bool:
     return False
 
 
+def block_head(node):
+    """the first thing evaluated in the block that contains the statement of `node` (facts established by the branch condition
+    hold there even if the block later rebinds the names they mention)"""
+    st = stmt_of(node)
+    par = getattr(st, "_parent", None)
+    head = st
+    for fld in ("body", "orelse", "finalbody"):
+        blk = getattr(par, fld, None)
+        if isinstance(blk, list) and st in blk:
+            head = blk[0]
+            break
+    while isinstance(head, (ast.If, ast.While)):
+        t = head.test
+        while isinstance(t, ast.BoolOp):
+            t = t.values[0]
+        while isinstance(t, ast.UnaryOp) and isinstance(t.op, ast.Not):
+            t = t.operand
+        return t
+    return head
+
+
 def one(ctx, rule, f: Func, pattern: str, what: str, env=None):
     """exactly one site of `pattern` in f, else the mechanism is missing (violation) -> returns (node, env) | None"""
     s = ctx.sites(f, pattern, env)
